@@ -40,6 +40,8 @@ var c17JobPool = map[string]*jobSpec{
 	"ja": {Name: "ja"},
 	"jb": {Name: "jb", Scheme: "https", Rules: []relRule{{Action: "drop", Source: []string{"zone"}, Regex: "v1"}}},
 	"jc": {Name: "jc", Path: "/probe", Params: map[string][]string{"module": {"http_2xx"}}, Rules: []relRule{{Action: "labelmap", Regex: "__meta_kubernetes_pod_label_(.+)"}}},
+	// a name that differs from "ja" in letter case only is another job
+	"JA": {Name: "JA", Path: "/upper"},
 	"jd": {Name: "jd", Rules: []relRule{{Action: "keep", Source: []string{"env"}, Regex: "prod|v2|"}}},
 }
 
@@ -438,10 +440,11 @@ func runC17(rec *vkit.Recorder, c *c17Case) []vkit.Violation {
 }
 
 func genC17(t *rapid.T) *c17Case {
-	all := []string{"ja", "jb", "jc", "jd"}
+	// configured in an order that is not the sorted one (job lookups must not rely on order)
+	all := []string{"jc", "ja", "JA", "jd", "jb"}
 	subset := func(label string) []string {
 		var out []string
-		for _, j := range all {
+		for _, j := range rapid.Permutation(all).Draw(t, label+"-order") {
 			if rapid.IntRange(0, 2).Draw(t, label+"-"+j) != 0 {
 				if rapid.IntRange(0, 2).Draw(t, label+"-"+j+"-variant") == 0 {
 					j += "#1"
